@@ -157,6 +157,34 @@ def late_grid(ctx, spec, seed):
         ctx.count("late_grid_runs")
 
 
+def step_by_step(ctx, seed):
+    """a delayed reaction added to a model that was already in use (the way an interactive session builds models): its
+    delayed part arrives after *its own* delay.  X -> (fixed delay 6) Y at rate 50 per molecule, 20 X: no Y before t = 6,
+    all 20 at the end; reaction 0 of the model has no delay, or a delay of 2."""
+    from bioscrape.types import Model
+    T = np.linspace(0, 10.0, 101)
+    for first_delay in (None, 2.0):
+        for used in ("initialised", "simulated"):
+            case = {"scenario": "delayed reaction added step by step", "first_reaction_delay": first_delay, "model_before": used, "seed": seed}
+            ctx.begin_case(case)
+            r0 = (["W"], ["Z"], "massaction", {"k": 1.0}) + (("fixed", [], ["Z"], {"delay": first_delay}) if first_delay else ())
+            M = Model(species=["W", "Z", "X", "Y"], reactions=[r0], initial_condition_dict={"W": 5, "Z": 0, "X": 20, "Y": 0})
+            if used == "simulated":
+                simcorr.run_real(M, "delay", T, seed, 0.1)
+            M.create_reaction(["X"], [], "massaction", {"k": 50.0}, delay_type="fixed", delay_reactants=[], delay_products=["Y"],
+                              delay_param_dict={"delay": 6.0})
+            for kind in ("delay", "delayvolume"):
+                r = simcorr.run_real(M, kind, T, seed, 0.1)
+                ctx.evaluated()
+                y = r["rows"][:, M.get_species_list().index("Y")]
+                early = [float(t) for t, v in zip(T, y) if t < 5.95 and v != 0]
+                if early or y[-1] != 20:
+                    ctx.violation("delivery-time/step-by-step", "a delayed reaction (delay 6) added to a model already %s: delayed products reported at t=%s, "
+                                  "final count %g of 20 (%s)" % (used, early[:3], y[-1], kind), dict(case, kind=kind, Y=y[:80:10].tolist()))
+                    return
+            ctx.count("step_by_step_runs")
+
+
 def sampler_corr(ctx, rng):
     """Delay samplers: the model's draws equal py_normal_rv / py_gamma_rv / py_uniform_rv bit for bit; KS support."""
     from bioscrape.random import py_seed_random, py_normal_rv, py_gamma_rv, py_uniform_rv, py_exponential_rv
@@ -236,6 +264,7 @@ def run(ctx):
             corr(ctx, spec, T, seeds[:2], kind="delayvolume")
         accounting(ctx, spec, np.linspace(0, 5.0, 501), seeds[0])
         late_grid(ctx, spec, seeds[0])
+        step_by_step(ctx, seeds[0])
         # fixed delays placed relative to the simulated horizon (the queue has as many slots as grid points):
         # just inside, at, and just beyond it
         fixed = [r for r in spec["reactions"] if (r.get("delay") or {}).get("type") == "fixed"]
